@@ -408,7 +408,6 @@ def cases(tier):
             H1(2, 2, 2, part="nonfinal", timeout_s=900, som=True),          # expected: known finding
             H1(3, 2, 1, part="final", timeout_s=900, som=True),
             H1(2, 3, 2, rank=3, timeout_s=900, som=True),
-            H1(1, 2, 1, d=3, timeout_s=900, som=True),
             H2(3, 2), H3(2, 3, 2, 3, "ends"), H3(1, 3, 2, 4, "ends"), H4(2, 2, 1),
         ]
     return cs
